@@ -919,20 +919,95 @@ theorem C11_incr_decr_singleton_noop (cmd : String) (hc : cmd = "incr" ∨ cmd =
     rw [veq_decr props s hr]
     rcases hnb with h | ⟨i, h⟩ <;> rw [h] <;> exact execIncrDecr_singleton _ props s u hk hs
 
-/-- **`add` while an exclusive command runs** (required properties present, options valid):
-    ConflictError before the watcher is even constructed -/
+/-- `AddWatcher.execute` after its endpoint-owner test -/
+def execAddTail (props : JVal) : M (R ExecRes) := do
+  let r ← syncPlain "arbiter_add_watcher" (addCore props)
+  match r with
+  | .error e => pure (.error e)
+  | .ok uid =>
+    if ((props.get? "start").map truthy).getD false then
+      let t ← syncCoroutine "watcher_start" (.pubStart uid) []
+      pure (t.map fun tid => .future tid "")
+    else pure (.ok (.value "-"))
+
+/-- the endpoint-owner test comes first: either it refuses (MessageError, nothing touched) or `add` goes on as without it -/
+theorem C11.execAdd_cases (props : JVal) (s : State) :
+    (ownerRefuses s.a.endpointOwner props = true ∧ execAdd props s = (.error .message, s)) ∨
+    (ownerRefuses s.a.endpointOwner props = false ∧ execAdd props s = execAddTail props s) := by
+  cases h : ownerRefuses s.a.endpointOwner props with
+  | true =>
+    refine .inl ⟨rfl, ?_⟩
+    unfold execAdd
+    rw [bind_run]
+    show (if ownerRefuses s.a.endpointOwner props = true then (pure (Except.error Exc.message) : M (R ExecRes))
+          else _) s = _
+    rw [ite_run, if_pos h]; rfl
+  | false =>
+    refine .inr ⟨rfl, ?_⟩
+    unfold execAdd
+    rw [bind_run]
+    show (if ownerRefuses s.a.endpointOwner props = true then (pure (Except.error Exc.message) : M (R ExecRes))
+          else _) s = _
+    rw [ite_run, if_neg (by simp [h])]; rfl
+
+/-- **`add` while an exclusive command runs** (required properties present, options valid, and — in endpoint-owner mode — the
+    `uid` of the endpoint owner, else the request fails that validation first): ConflictError before the watcher is even
+    constructed -/
 theorem C11_conflict_add_noop (props : JVal) (s : State) (hb : busy s) (hr : reqOk "add" props)
     (ho : props.get? "options" = none ∨
-          ∃ kvs, props.get? "options" = some (.obj kvs) ∧ (kvs.all fun kv => validateOption kv.1 kv.2) = true) :
+          ∃ kvs, props.get? "options" = some (.obj kvs) ∧ (kvs.all fun kv => validateOption kv.1 kv.2) = true)
+    (hown : ownerRefuses s.a.endpointOwner props = false) :
     validateExecute "add" props s = (.error .conflict, s) := by
   have key : execAdd props s = (.error .conflict, s) := by
-    unfold execAdd
+    rcases execAdd_cases props s with ⟨h, _⟩ | ⟨_, h⟩
+    · rw [hown] at h; cases h
+    rw [h]
+    unfold execAddTail
     rw [bind_run, syncPlain_busy _ _ s hb]
     rfl
   rw [veq_add props s hr]
   rcases ho with h | ⟨kvs, h, hall⟩
   · rw [h]; exact key
   · rw [h]; simp only; erw [if_pos hall]; exact key
+
+/-- **an `add` whose uid is not the endpoint owner, in endpoint-owner mode**: whatever else the request carries and whatever
+    the daemon is doing, the answer is a validation-class error (MessageError, errno 3) and the state is exactly what it
+    was — the watcher is not constructed, the slot is not even asked for. -/
+theorem C11_add_refused_by_endpoint_owner (props : JVal) (s : State)
+    (h : ownerRefuses s.a.endpointOwner props = true) :
+    ∃ e, validateExecute "add" props s = (.error e, s) := by
+  have key : execAdd props s = (.error .message, s) := by
+    rcases execAdd_cases props s with ⟨_, hc⟩ | ⟨h2, _⟩
+    · exact hc
+    · rw [h] at h2; cases h2
+  by_cases hr : reqOk "add" props
+  swap
+  · exact ⟨_, veq_req_fail _ _ _ hr⟩
+  rw [veq_add props s hr]
+  cases ho : props.get? "options" with
+  | none => exact ⟨_, key⟩
+  | some o =>
+    cases o with
+    | obj kvs =>
+      simp only
+      by_cases hall : (kvs.all fun kv => validateOption kv.1 kv.2) = true
+      · erw [if_pos hall]; exact ⟨_, key⟩
+      · erw [if_neg hall]; exact ⟨_, rfl⟩
+    | _ => exact ⟨_, rfl⟩
+
+/-- … and with valid properties it is exactly that error -/
+theorem C11_add_wrong_uid_is_message_error (props : JVal) (s : State) (hr : reqOk "add" props)
+    (kvs : List (String × JVal)) (ho : props.get? "options" = some (.obj kvs))
+    (hall : (kvs.all fun kv => validateOption kv.1 kv.2) = true)
+    (h : ownerRefuses s.a.endpointOwner props = true) :
+    validateExecute "add" props s = (.error .message, s) := by
+  have key : execAdd props s = (.error .message, s) := by
+    rcases execAdd_cases props s with ⟨_, hc⟩ | ⟨h2, _⟩
+    · exact hc
+    · rw [h] at h2; cases h2
+  rw [veq_add props s hr, ho]
+  simp only
+  erw [if_pos hall]; exact key
 
 /-- **`set` on an existing watcher while an exclusive command runs** (options valid): the first
     `set_opt` call is already refused, the remaining options are skipped, nothing is applied -/
@@ -1060,10 +1135,15 @@ theorem C11.execSet_busy_any (props : JVal) (s : State) (hb : busy s) : ∃ e, e
     rw [bind_run, h]; exact ⟨e, rfl⟩
   · exact ⟨_, execSet_busy props s u hb h⟩
 
-theorem C11.execAdd_busy_any (props : JVal) (s : State) (hb : busy s) : execAdd props s = (.error .conflict, s) := by
-  unfold execAdd
+theorem C11.execAddTail_busy (props : JVal) (s : State) (hb : busy s) : execAddTail props s = (.error .conflict, s) := by
+  unfold execAddTail
   rw [bind_run, syncPlain_busy _ _ s hb]
   rfl
+
+theorem C11.execAdd_busy_any (props : JVal) (s : State) (hb : busy s) : ∃ e, execAdd props s = (.error e, s) := by
+  rcases execAdd_cases props s with ⟨_, h⟩ | ⟨_, h⟩
+  · exact ⟨_, h⟩
+  · exact ⟨_, h.trans (execAddTail_busy props s hb)⟩
 
 theorem C11.execIncrDecr_busy_any (sign : Int) (props : JVal) (s : State) (hb : busy s) :
     (∃ e, execIncrDecr sign props s = (.error e, s)) ∨ (∃ body, execIncrDecr sign props s = (.ok (.value body), s)) := by
@@ -1123,13 +1203,13 @@ theorem C11_busy_refuses_noop (cmd : String)
   · exact ⟨_, C11_conflict_quit_noop props s hb⟩
   · rw [veq_add props s hr]
     cases props.get? "options" with
-    | none => exact ⟨_, execAdd_busy_any props s hb⟩
+    | none => exact execAdd_busy_any props s hb
     | some o =>
       cases o with
       | obj kvs =>
         simp only
         by_cases hall : (kvs.all fun kv => validateOption kv.1 kv.2) = true
-        · erw [if_pos hall]; exact ⟨_, execAdd_busy_any props s hb⟩
+        · erw [if_pos hall]; exact execAdd_busy_any props s hb
         · erw [if_neg hall]; exact ⟨_, rfl⟩
       | _ => exact ⟨_, rfl⟩
   · rw [veq_set props s hr]
@@ -1255,10 +1335,13 @@ theorem C11.syncPlain_free {α : Type} (name : String) (body : M (R α)) (s : St
 
 theorem C11.execAdd_error_noop (props : JVal) (s : State) (e : Exc) (h : (execAdd props s).1 = .error e) :
     (execAdd props s).2 = s := by
+  rcases execAdd_cases props s with ⟨_, hc⟩ | ⟨_, hc⟩
+  · rw [hc]
+  rw [hc] at h ⊢
   by_cases hb : busy s
-  · rw [execAdd_busy_any props s hb]
+  · rw [execAddTail_busy props s hb]
   · obtain ⟨h1, h2⟩ := (not_busy_iff s).mp hb
-    unfold execAdd at h ⊢
+    unfold execAddTail at h ⊢
     rw [bind_run] at h ⊢
     rw [syncPlain_free _ _ s hb] at h ⊢
     rcases addCore_cases props (setSlot (some "arbiter_add_watcher") s).2 with ⟨e1, hc⟩ | ⟨uid, s1, hc, hrs⟩
@@ -1308,8 +1391,11 @@ theorem C11_add_error_noop (props : JVal) (s : State) (e : Exc)
 theorem C11.execAdd_refused (props : JVal) (s : State)
     (h : ∃ e, (addCore props (setSlot (some "arbiter_add_watcher") s).2).1 = .error e) :
     ∃ e, execAdd props s = (.error e, s) := by
+  rcases execAdd_cases props s with ⟨_, hcs⟩ | ⟨_, hcs⟩
+  · exact ⟨_, hcs⟩
+  rw [hcs]
   by_cases hb : busy s
-  · exact ⟨_, execAdd_busy_any props s hb⟩
+  · exact ⟨_, execAddTail_busy props s hb⟩
   · obtain ⟨e, he⟩ := h
     have hc : addCore props (setSlot (some "arbiter_add_watcher") s).2 =
         (.error e, (setSlot (some "arbiter_add_watcher") s).2) := by
@@ -1317,7 +1403,7 @@ theorem C11.execAdd_refused (props : JVal) (s : State)
       · rw [hc] at he ⊢; simp only at he; rw [he]
       · rw [hc] at he; cases he
     refine ⟨e, ?_⟩
-    unfold execAdd
+    unfold execAddTail
     rw [bind_run, syncPlain_body_noop _ _ s hb _ hc]
     rfl
 
@@ -2772,7 +2858,17 @@ example : validateExecute "incr" (.obj [("name", .str "solo")]) exBusy
   C11_incr_decr_singleton_noop "incr" (.inl rfl) _ _ 3 ⟨"solo", rfl, by decide +kernel⟩ (by decide +kernel) (.inl rfl)
 example : validateExecute "add" (.obj [("name", .str "new"), ("cmd", .str "sleep 1")]) exBusy
     = (.error .conflict, exBusy) :=
-  C11_conflict_add_noop _ _ (.inr (by decide +kernel)) (by decide +kernel) (.inl rfl)
+  C11_conflict_add_noop _ _ (.inr (by decide +kernel)) (by decide +kernel) (.inl rfl) rfl
+
+-- endpoint-owner mode: an `add` without the owner's uid, and one with another uid, are refused whatever the daemon does
+example : validateExecute "add" (.obj [("name", .str "new"), ("cmd", .str "sleep 1"), ("options", .obj [("uid", .str "nobody")])])
+      { exBusy with a := { exBusy.a with endpointOwner := some "root" } }
+    = (.error .message, { exBusy with a := { exBusy.a with endpointOwner := some "root" } }) :=
+  C11_add_wrong_uid_is_message_error _ _ (by decide +kernel) _ rfl (by decide +kernel) (by decide +kernel)
+example : ownerRefuses (some "root") (.obj [("name", .str "new"), ("cmd", .str "sleep 1")]) = true ∧
+    ownerRefuses (some "root") (.obj [("options", .obj [("uid", .int 0)])]) = true ∧
+    ownerRefuses (some "root") (.obj [("options", .obj [("uid", .str "root")])]) = false ∧
+    ownerRefuses none (.obj []) = false := by decide +kernel
 
 /-- 6. `add` of a name registered in another letter case, at rest: the slot is taken and released -/
 example : ∃ e, validateExecute "add" (.obj [("name", .str "b"), ("cmd", .str "sleep 1")]) exFree = (.error e, exFree) :=
